@@ -51,7 +51,7 @@ def main():
         'notes': '25 minimal fix: commits in /repo repair the genuine defects found while building (DESIGN.md 12.2; each is recorded as a '
                  '`fixed:` line in KNOWN_FINDINGS.txt and suppresses nothing); three defects are listed as findings (C12 implicit iteration without a '
                  'bound, C18 rp round trip, C19 numba copy lacks five functions). No source hooks: MPI and parallel HDF5 are replaced by import '
-                 'precedence. seeded/ holds 159 independently produced breaking changes with the check that catches each (DESIGN.md 12.4).',
+                 'precedence. seeded/ holds 179 independently produced breaking changes with the check that catches each (DESIGN.md 12.4).',
         'not_applicable': [{'property_id': p, 'reason': NA.get(p, NOT_YET)} for p in ALL if p not in CLAIMED],
     }
     with open(os.path.join(VERIF, 'MANIFEST.json'), 'w') as f:
